@@ -77,7 +77,12 @@ def run(tier):
     row_sets = [vlib.read_ndjson(j[2]) for j in jobs]
     batches = [r for rows in row_sets for r in rows if r["ev"] == "Batch"]
     good, rejected, st = vlib.validate_many(row_sets, "Batch_Trace.tla", "Batch_Trace.cfg", "C15", "batch",
-                                            max_rejects=4, start_ev="Batch")
+                                            max_rejects=4, start_ev=("Batch", "Pool"))
+    for run_rows, line, evt in [x for x in rejected if x[2]["ev"] == "Pool"]:
+        rep.violation({"pool_member": evt["name"], "single": evt["single"]},
+                      f"batch_verify of the single pool member '{evt['name']}' (valid by construction: {evt['expect_ok']}) returned {evt['single']}",
+                      {"scenario": {"members": [evt["name"]], "mismatch": "none"}, "event": evt})
+    rejected = [x for x in rejected if x[2]["ev"] == "Batch"]
     for run_rows, line, evt in rejected:
         key = {"n": len(evt["members"]), "mismatch": evt["mismatch"], "res": evt["res"],
                "guard": evt["guard_res"], "acc_panic": "panic" in evt["acc"]}
@@ -115,7 +120,7 @@ def replay(path):
     tp = os.path.join(wd, "replay_trace.ndjson")
     vlib.run_vh(["c15", sp, tp, str(d.get("seed", 1))])
     rows = vlib.read_ndjson(tp)
-    good, rejected, _ = vlib.validate_runs(rows, "Batch_Trace.tla", "Batch_Trace.cfg", "C15", "replay", start_ev="Batch")
+    good, rejected, _ = vlib.validate_runs(rows, "Batch_Trace.tla", "Batch_Trace.cfg", "C15", "replay", start_ev=("Batch", "Pool"))
     if rejected:
         log(f"VIOLATION property=C15 replay={path}")
         return 1
